@@ -4,6 +4,7 @@ from __future__ import annotations
 
 from .. import gen
 from ..monitors import AtomicityMonitor
+from ..ops import OpGen
 from . import common
 
 PROP = "C11"
@@ -30,8 +31,12 @@ def cfg_fn(rng):
     return gen.random_config(rng, p3d=0.15, ellipse3d=True)
 
 
-WEIGHTS = {"ctrl": 0.8, "add_node": 6, "add_edge": 6, "paint": 6, "swap": 2.5, "update_attrs": 2,
+WEIGHTS = {"features": 1.5, "ctrl": 0.8, "add_node": 6, "add_edge": 6, "paint": 6, "swap": 2.5, "update_attrs": 2,
            "undo": 1, "redo": 0.7}
+
+
+class _Gen(OpGen):
+    toggle_lineage = True  # the lineage feature is also switched off / on alone
 
 
 def plan(tier, seed):
@@ -43,7 +48,7 @@ def run_shard(spec):
     if spec.get("kind") == "pytest":
         return common.run_pytest_shard(spec, PROP)
     return common.run_sessions(spec, PROP, make_monitors, cfg_fn, nsteps=(15, 35),
-                               weights=WEIGHTS, refusal_rate=2.5, history_share=0.25)
+                               weights=WEIGHTS, refusal_rate=2.5, history_share=0.25, opgen=_Gen)
 
 
 def floors(tier):
